@@ -1719,6 +1719,9 @@ def _gen_lut_cases(rng, n):
     def col(bits, k):
         return [rng.choice([0, 1, 2 ** bits - 1, rng.randrange(2 ** bits)]) for _ in range(k)]
     sizes = [1, 2, 3, 4, 5, 7, 8, 255, 256, 257]
+    # byte order only exists for 16-bit tables
+    lays = {8: ['C', 'C', 'strided', 'offset', 'readonly'],
+            16: ['C', 'strided', 'offset', 'readonly', 'swapped', 'swapped', 'swapped_offset', 'swapped_readonly']}
     for bits in (8, 16):
         for k in sizes:
             if k > 2 ** bits and rng.random() < 0.5:
@@ -1727,7 +1730,7 @@ def _gen_lut_cases(rng, n):
                 if n == 1 and cls in PLAIN_LUTS[1:] and k not in (3, 4, 256):
                     continue
                 cases.append({'kind': 'lut', 'cls': cls, 'bits': bits, 'first': rng.choice([0, 0, 1, 2 ** bits - 1]),
-                              'r': col(bits, k), 'layout': rng.choice(['C', 'C', 'strided', 'offset', 'readonly'])})
+                              'r': col(bits, k), 'layout': rng.choice(lays[bits])})
             for via in ('luts', 'combined', 'colors', 'segmented'):
                 if via == 'colors' and bits == 16:
                     continue
@@ -1738,7 +1741,7 @@ def _gen_lut_cases(rng, n):
                 cases.append({'kind': 'lut', 'cls': 'PaletteColorLUTTransformation', 'via': via, 'bits': bits,
                               'first': 0 if holder else rng.choice([0, 1]), 'r': col(bits, k), 'g': col(bits, k),
                               'b': col(bits, k), 'holder': holder,
-                              'layout': rng.choice(['C', 'strided', 'readonly']) if via != 'colors' else 'C'})
+                              'layout': rng.choice(lays[bits]) if via != 'colors' else 'C'})
     # refusals: first mapped value / number of entries outside the table, unequal tables
     for bits, first, k in ((8, 256, 3), (8, -1, 3), (16, 65536, 2), (8, 0, 0), (16, 0, 0)):
         cases.append({'kind': 'lut', 'cls': 'PaletteColorLUT', 'bits': bits, 'first': first, 'r': col(bits, k),
